@@ -130,6 +130,40 @@ def check(ctx):
                                "(ListField(ListField(schema)), DictField(..., ListField(schema))) are rendered unmasked" % (f2.qualname, g.qualname),
                                node=n2)
 
+    # other renderers: a function outside the to_tree family that takes a mask and encodes field values itself (a new
+    # `flatten(config, sensitive_mask=...)`) is a second root -- every call from below it into the to_tree family hands the mask
+    # on, or is intercepted by that function the way to_tree intercepts lists of configurations
+    calls_ = an.summary(CALLS)
+    tt_reach = an.reachable_fns([to_tree])
+    for r in an.fns():
+        if r in fam or r in tt_reach or mask_param(r) is None or isinstance(r.node, ast.Lambda):
+            continue
+        if not any(e[0] == "CODEC" and e[2] == "to_basic" for n in an.cfg(r).nodes for e in calls_.direct(r, n)):
+            continue
+        for g in an.reachable_fns([r]):
+            if g in fam and g is not r:
+                continue        # below a to_tree call the rules above apply
+            for n in an.cfg(g).nodes:
+                if n.kind != "call":
+                    continue
+                tg = [t.fn for t in an.targets(g, n) if t.kind == "fn" and t.fn in fam]
+                if not tg:
+                    continue
+                if g is r:
+                    ok_ = forwards_mask(an, g, n, tg[0])
+                    ctx.ob("forward.other-renderer", g, n.ast, ok_, "hands on the caller's sensitive_mask" if ok_ else
+                           "%s renders a nested configuration without its mask" % r.qualname, node=n)
+                    continue
+                if forwards_mask(an, g, n, tg[0]):
+                    continue
+                try:
+                    ok_, why_ = intercepted(an, r, g, n)
+                except Exception:       # the interception analysis is written for to_tree's shape
+                    ok_, why_ = False, "not intercepted"
+                ctx.ob("forward.other-renderer", g, n.ast, ok_,
+                       why_ if ok_ else "%s encodes values through %s, which renders configurations without the mask, and does not keep "
+                       "lists of configurations away from it the way Config.to_tree does: %s" % (r.qualname, g.qualname, why_), node=n)
+
     # ---------------------------------------------------------------- C10.2 sensitive branch
     # decided by specialising to_tree: "a mask is given / the field is sensitive / the value is non-empty / the mask is one
     # character" each fix the outcome of the tests that ask exactly that (through local flags and inlined helpers alike);
